@@ -152,7 +152,7 @@ Aux:
 				// ignore
 			default:
 				if !ss.Bound(Symbol(ad.Name)) {
-					ss.Let(Symbol(ad.Name), ad.Default)
+					ss.Let(Symbol(ad.Name), ss.Eval(ad.Default, depth+1))
 				}
 			}
 		case restMode:
@@ -165,7 +165,7 @@ Aux:
 				// ignore
 			default:
 				if !ss.Bound(Symbol(ad.Name)) {
-					ss.Let(Symbol(ad.Name), ad.Default)
+					ss.Let(Symbol(ad.Name), ss.Eval(ad.Default, depth+1))
 				}
 			}
 		case keyMode:
@@ -173,7 +173,7 @@ Aux:
 			if AmpAux == asym {
 				mode = auxMode
 			} else if !ss.Bound(asym) {
-				ss.Let(asym, ad.Default)
+				ss.Let(asym, ss.Eval(ad.Default, depth+1))
 			}
 		case auxMode:
 			val := ad.Default
